@@ -130,6 +130,15 @@ def oracle_ledgers(h):
                         for l in r['locks']:
                             if l[0] != unlock or l[2] != lp:
                                 out.append(viol('C16', i, 'lock_args', 'lock call %r' % (l,)))
+            elif ok and first:
+                # settled although a selection step is unfinished or the claim round is not reached:
+                # the views of that moment are not the final outcome
+                wins = len(V(vb, 'winIds', u) or [])
+                dlp = b1(u, lp) - b0(u, lp) + sum(l[4] for l in r['locks'] if l[1] == u)
+                out.append(viol('C09', i, 'early_settlement',
+                                'participant %d settled at round %d with flags %r, claim start %d (views: %d winning; received %d launchpad tokens)' % (
+                                    u, c.round, V(vb, 'flags'), cfg[2], wins, dlp)))
+                settled[u] = (wins, V(vb, 'confirmed', u)[0])
             elif ok:
                 # a later claim: only vesting may pay
                 u = c.caller
